@@ -107,7 +107,28 @@ func collectFmtFragments(input string) ([]FmtDiff, error) {
 	fmter := &fmter{}
 	fmter.diffFile(fragments)
 
-	return fmter.fragments, nil
+	return mergeSharedLines(fmter.fragments), nil
+}
+
+// mergeSharedLines joins fragments which start on a line the previous
+// fragment already covers (several statements on one source line), so that
+// the line ranges never overlap.
+func mergeSharedLines(in []FmtDiff) []FmtDiff {
+	out := make([]FmtDiff, 0, len(in))
+	for _, diff := range in {
+		if len(out) > 0 {
+			last := &out[len(out)-1]
+			if diff.FromLine < last.ToLine {
+				last.NewText += diff.NewText
+				if diff.ToLine > last.ToLine {
+					last.ToLine = diff.ToLine
+				}
+				continue
+			}
+		}
+		out = append(out, diff)
+	}
+	return out
 }
 
 type fmter struct {
